@@ -215,6 +215,73 @@ def check_two_parts(first, acc):
                 )
 
 
+def check_parses_in_flight(acc):
+    """Two default parses in flight: the library the outer parse fills is a user's Library subclass whose `entries` /
+    `strings_dict` views, at their n-th reading, start a complete second parse_string of another document (inline or in a
+    second thread) - each document's references resolve against its own @string blocks."""
+    import threading
+
+    from bibtexparser.library import Library
+
+    text_a = '@string{jrnl = "Journal of A"}\n@string{onlya = {A only}}\n@article{a1, journal = jrnl, note = onlyb, x = onlya}\n@article{a2, journal = {jrnl}, y = jrnl}\n@article{a3, z = onlya, w = jrnl}\n'
+    text_b = '@string{jrnl = "Journal of B"}\n@string{onlyb = {B only}}\n@article{b1, journal = jrnl, note = onlyb, x = onlya}\n'
+    sig = lambda lib: [(type(b).__name__, getattr(b, "key", None), [(f.key, f.value) for f in getattr(b, "fields", [])], sorted((k, repr(v)) for k, v in b.parser_metadata.items() if k == "ResolveStringReferences")) for b in lib.blocks]
+    alone_a, alone_b = sig(bibtexparser.parse_string(text_a)), sig(bibtexparser.parse_string(text_b))
+
+    class Hooked(Library):
+        hook = None  # [countdown, threaded, results]
+
+        def _maybe(self):
+            h = self.hook
+            if h is not None:
+                h[0] -= 1
+                if h[0] < 0:
+                    self.hook = None
+
+                    def run():
+                        try:
+                            h[2].append(("ok", sig(bibtexparser.parse_string(text_b))))
+                        except Exception as ex:
+                            h[2].append(("raised", type(ex).__name__))
+
+                    if h[1]:
+                        t = threading.Thread(target=run)
+                        t.start()
+                        t.join()
+                    else:
+                        run()
+
+        @property
+        def entries(self):
+            self._maybe()
+            return Library.entries.fget(self)
+
+        @property
+        def strings_dict(self):
+            self._maybe()
+            return Library.strings_dict.fget(self)
+
+    for nth in range(0, 8):
+        for threaded in (False, True):
+            case = {"parses_in_flight": nth, "in_another_thread": threaded}
+            acc.trace(2)
+            acc.case(nontrivial_key=("parses-in-flight", nth, threaded))
+            acc.count("parses_in_flight")
+            lib = Hooked()
+            results = []
+            lib.hook = [nth, threaded, results]
+            try:
+                got = sig(bibtexparser.parse_string(text_a, library=lib))
+            except Exception as ex:
+                acc.exception(ex, case, "parse_string(library=a user's Library subclass)")
+                continue
+            acc.step(("outer", "a"), ("inner at view reading", nth, threaded), hash(repr(got)))
+            if got != alone_a:
+                acc.violation({"oracle": "field_values_after_resolution", "form": "two parses in flight", "kind": "outer"}, {"case": case, "observed": got, "expected": alone_a})
+            elif results and results[0] != ("ok", alone_b):
+                acc.violation({"oracle": "field_values_after_resolution", "form": "two parses in flight", "kind": "inner"}, {"case": case, "observed": repr(results[0])[:600], "expected": alone_b})
+
+
 LENGTHS = {"quick": [1, 2, 15, 16, 17, 31, 32, 33, 63, 64, 65, 127, 128, 129, 255, 256, 257, 1023, 1024, 1025, 4095, 4096, 4097], "thorough": [1, 2, 15, 16, 17, 31, 32, 33, 63, 64, 65, 127, 128, 129, 255, 256, 257, 1023, 1024, 1025, 4095, 4096, 4097, 65535, 65536, 65537, 1 << 20]}
 
 
@@ -258,6 +325,7 @@ def check_lengths(acc, tier):
 
 def run_shard(shard, tier, acc):
     if shard[0] == "lengths":
+        check_parses_in_flight(acc)
         return check_lengths(acc, tier)
     if shard[0] == "two_parts":
         return check_two_parts(shard[1], acc)
@@ -312,6 +380,8 @@ def run_shard(shard, tier, acc):
 
 
 def replay(case, acc):
+    if "parses_in_flight" in case:
+        return check_parses_in_flight(acc)
     if "length" in case:
         return check_lengths(acc, "quick" if case["length"] <= 4097 else "thorough")
     if "big" in case:
